@@ -625,7 +625,12 @@ def oracle(req, obs, rule_row, ibgp):
             v.append('request without valid credentials (%s) answered %d' % (req['cred'], obs['status']))
         if effect:
             v.append('request without valid credentials (%s) had an effect: %r' % (req['cred'], obs['delta'][:3]))
-    if writes and obs['fsm_before'] != 6:
+    # the only message an endpoint may cause outside Established: the Cease NOTIFICATION of an authorised manual
+    # stop in OpenSent / OpenConfirm (RFC 4271 8.2.2, event 2; the code sends it since fix 8b5b420)
+    cease_of_stop = (rule.endswith('/manual-stop') and req['cred'] in VALID_CREDS and allowed and
+                     obs['fsm_before'] in (4, 5) and
+                     all(len(x[2]) >= 21 and x[2][18] == 3 and x[2][19] == 6 for x in writes))
+    if writes and obs['fsm_before'] != 6 and not cease_of_stop:
         v.append('BGP message written while the session is not Established (state %d)' % obs['fsm_before'])
     sender = under_peer and '/send/' in rule
     if sender and req['cred'] in VALID_CREDS and allowed and req['method'] != 'OPTIONS':
